@@ -100,6 +100,7 @@ var c13Sections = []c13Section{
 	{Name: "matrix", Path: []string{"jobs", "*", "strategy", "matrix"}, Free: true},
 	{Name: "matrix.include-item", Path: []string{"jobs", "*", "strategy", "matrix", "include", "[]"}, Free: true},
 	{Name: "matrix.exclude-item", Path: []string{"jobs", "*", "strategy", "matrix", "exclude", "[]"}, Free: true},
+	{Name: "matrix.row-value", Path: []string{"jobs", "*", "strategy", "matrix", "*", "[]"}, Free: true},
 	{Name: "container", Path: []string{"jobs", "*", "container"}, Keys: c13ContainerKeys},
 	{Name: "container.credentials", Path: []string{"jobs", "*", "container", "credentials"}, Keys: c13CredentialKeys, Mand: c13CredentialMand},
 	{Name: "container.env", Path: []string{"jobs", "*", "container", "env"}, Free: true},
@@ -442,4 +443,5 @@ var c13Templates = []c13Template{
 	{"A", c13TemplateA},
 	{"B", c13TemplateB},
 	{"C", c13TemplateC},
+	{"N", c13TemplateN},
 }
